@@ -23,6 +23,99 @@ pub fn decommit(root: Felt, height: u64, n_friendly: u64, queries: &[(Felt, Felt
     verdict(|| vector_commitment_decommit(commitment, &qs, w))
 }
 
+/// Query sets for trees that cannot be materialised: (height, tag, sorted distinct leaf indices).
+pub fn tall_shapes(ctx: &Ctx) -> Vec<(u32, String, Vec<u128>)> {
+    let mut out: Vec<(u32, String, Vec<u128>)> = Vec::new();
+    let mut rng = ctx.rng(0x04a0);
+    let heights: Vec<u32> = if ctx.quick() { vec![11, 16, 30, 31, 32, 33, 40, 63, 64] } else { (11..=64).collect() };
+    for h in heights {
+        let n: u128 = 1u128 << h;
+        let mut push = |tag: &str, mut v: Vec<u128>| {
+            v.sort();
+            v.dedup();
+            v.retain(|x| *x < n);
+            if !v.is_empty() {
+                out.push((h, tag.to_string(), v));
+            }
+        };
+        push("first", vec![0]);
+        push("last", vec![n - 1]);
+        push("around-2^32", vec![(1u128 << 32) - 1, 1u128 << 32, (1u128 << 32) + 1]);
+        push("around-2^63", vec![(1u128 << 63) - 1, 1u128 << 63]);
+        push("48-spread", (0..48).map(|_| (rng.next_u64() as u128 | ((rng.next_u64() as u128) << 64)) % n).collect());
+        push("48-consecutive", (0..48u128).map(|k| n / 3 + k).collect());
+        push("48-at-the-end", (0..48u128).map(|k| n - 1 - 2 * k).collect());
+        if h == 11 {
+            push("all-but-one", (0..n).filter(|x| *x != 777).collect());
+            push("every-second", (0..n).step_by(2).collect());
+        }
+        if h == 16 {
+            push("300-spread", (0..300).map(|_| rng.next_u64() as u128 % n).collect());
+            push("1500-spread", (0..1500).map(|_| rng.next_u64() as u128 % n).collect());
+        }
+    }
+    out
+}
+
+fn tall_trees(ctx: &Ctx, own: Variant, rep: &mut Report) {
+    use crate::refm::merkle::SparseTree;
+    use rayon::prelude::*;
+    let shapes = tall_shapes(ctx);
+    let parts: Vec<Report> = shapes
+        .par_iter()
+        .map(|(h, tag, qs)| {
+            let mut r = Report::new("C04", "exploration", "");
+            let mut rng = ctx.rng(0x04b0 + *h as u64);
+            for f in [0u64, 10, *h as u64 + 1] {
+                let leaves: std::collections::BTreeMap<u128, Felt> = qs.iter().map(|q| (*q, rng.felt())).collect();
+                let t = SparseTree::open(own, *h, f, Felt::ZERO, &leaves);
+                let queries: Vec<(Felt, Felt)> = leaves.iter().map(|(i, v)| (crate::kit::b2f(&num_bigint::BigUint::from(*i)), *v)).collect();
+                let case = |c: &str| json!({"kind": "tall", "h": h, "f": f, "shape": tag, "corruption": c});
+                // honest
+                let v = decommit(t.root, *h as u64, f, &queries, &t.auths);
+                r.eval(&format!("tall:honest:{}", v.short()));
+                r.nontrivial_case(&format!("tall|{}|{}|{}|honest", h, f, tag));
+                if !v.accepted() {
+                    r.violation(&format!("vector_decommit:honest:rejected:tall:{}", tag), &format!("honest opening of {} leaves ({}) in a tree of height {} (f={}) rejected: {}", qs.len(), tag, h, f, v.class()), case("none"));
+                    continue;
+                }
+                // a queried value / an authentication node / the root changed: must be rejected
+                for (c, which) in [("first-value", 0usize), ("last-value", queries.len() - 1)] {
+                    let mut q2 = queries.clone();
+                    q2[which].1 += Felt::ONE;
+                    let v = decommit(t.root, *h as u64, f, &q2, &t.auths);
+                    r.eval(&format!("tall:value:{}", v.short()));
+                    r.nontrivial_case(&format!("tall|{}|{}|{}|{}", h, f, tag, c));
+                    if v.accepted() {
+                        r.violation(&format!("vector_decommit:value:accepted:tall:{}", tag), &format!("{} changed, {} leaves ({}) height {} f={}: accepted", c, qs.len(), tag, h, f), case(c));
+                    }
+                }
+                if !t.auths.is_empty() {
+                    for (c, which) in [("first-auth", 0usize), ("last-auth", t.auths.len() - 1), ("middle-auth", t.auths.len() / 2)] {
+                        let mut a2 = t.auths.clone();
+                        a2[which] += Felt::ONE;
+                        let v = decommit(t.root, *h as u64, f, &queries, &a2);
+                        r.eval(&format!("tall:auth:{}", v.short()));
+                        r.nontrivial_case(&format!("tall|{}|{}|{}|{}", h, f, tag, c));
+                        if v.accepted() {
+                            r.violation(&format!("vector_decommit:sibling:accepted:tall:{}", tag), &format!("{} changed, {} leaves ({}) height {} f={}: accepted", c, qs.len(), tag, h, f), case(c));
+                        }
+                    }
+                }
+                let v = decommit(t.root + Felt::ONE, *h as u64, f, &queries, &t.auths);
+                r.eval(&format!("tall:root:{}", v.short()));
+                if v.accepted() {
+                    r.violation(&format!("vector_decommit:root:accepted:tall:{}", tag), &format!("root changed, {} leaves ({}) height {} f={}: accepted", qs.len(), tag, h, f), case("root"));
+                }
+            }
+            r
+        })
+        .collect();
+    for p in parts {
+        rep.merge(p);
+    }
+}
+
 pub fn leaves_for(ctx: &Ctx, h: u32, special: bool) -> Vec<Felt> {
     let n = 1usize << h;
     if special {
@@ -320,12 +413,22 @@ pub fn run(ctx: &Ctx) -> Report {
         }
         bound.push("h=10: structural family of 10 query sets".into());
     }
+    // trees that cannot be materialised (heights up to 64, hundreds of opened leaves): sparse reference
+    tall_trees(ctx, own, &mut rep);
+    bound.push("sparse trees of height 11..=64 (quick: 11, 16, 30..33, 40, 63, 64) with up to 2047 opened leaves".to_string());
     rep.bound_completed = bound.join("; ");
     rep.extra.insert("variant".into(), json!(own.name()));
     rep
 }
 
 pub fn replay(ctx: &Ctx, case: &Value) -> super::ReplayResult {
+    if case["kind"] == "tall" {
+        let mut rep = Report::new("C04", "exploration", "");
+        tall_trees(ctx, Variant::of_build(), &mut rep);
+        let want = format!("tall:{}", case["shape"].as_str().unwrap_or(""));
+        let hit: Vec<&String> = rep.violations.keys().filter(|k| k.ends_with(&want)).collect();
+        return Ok((!hit.is_empty(), format!("{:?}", hit)));
+    }
     let own = Variant::of_build();
     let h = case["h"].as_u64().ok_or("h")? as u32;
     let f = case["f"].as_u64().ok_or("f")?;
